@@ -554,6 +554,40 @@ def run(shard, ctx):
                 st, eq = ctx.call(lambda: tb == ta)
                 ctx.check("composition: a track with a rest differs from one with a note in its place", st == "ok" and bool(eq) is False,
                           {"a": repr(tb), "b": repr(ta)}, False, repr(eq), mechanism="track-eq-rest")
+            if ci < 40:
+                # the same bars in another order, or with other multiplicities: other contents
+                def bar_of(names):
+                    b = Bar("C", (4, 4))
+                    for nm in names:
+                        b.place_notes(nm, 4)
+                    return b
+                X, Y, Z = ["C", "E", "G", "C"], ["D", "F", "A", "D"], ["E", "G"]
+                for (sa, sb) in (([X, Y], [Y, X]), ([X, X, Y], [X, Y, Y]), ([X, Y, Z], [Z, X, Y]), ([X, Y, X], [X, X, Y])):
+                    ta, tb = Track(), Track()
+                    for q in sa:
+                        ta.add_bar(bar_of(q))
+                    for q in sb:
+                        tb.add_bar(bar_of(q))
+                    for (p1, p2) in ((ta, tb), (tb, ta)):
+                        st, eq = ctx.call(lambda: p1 == p2)
+                        ctx.check("composition: tracks with different contents are not equal", st == "ok" and bool(eq) is False,
+                                  {"bars_a": sa, "bars_b": sb}, False, repr(eq), mechanism="track-neq-order")
+                        st, ne = ctx.call(lambda: p1 != p2)
+                        ctx.check("composition: != is the negation of ==", st == "ok" and bool(ne) is True, {"bars_a": sa, "bars_b": sb}, True,
+                                  repr(ne), mechanism="track-ne-order")
+                    ca, cb = Composition(), Composition()
+                    ca.add_track(ta), cb.add_track(tb)
+                    st, eq = ctx.call(lambda: ca == cb)
+                    ctx.check("composition: compositions with different tracks are not equal", st == "ok" and bool(eq) is False,
+                              {"bars_a": sa, "bars_b": sb}, False, repr(eq), mechanism="composition-neq-order")
+                # and tracks in another order inside a composition
+                t1, t2_ = Track(), Track()
+                t1.add_bar(bar_of(X)), t2_.add_bar(bar_of(Y))
+                ca, cb = Composition(), Composition()
+                ca.add_track(t1), ca.add_track(t2_), cb.add_track(t2_), cb.add_track(t1)
+                st, eq = ctx.call(lambda: ca == cb)
+                ctx.check("composition: compositions with different tracks are not equal", st == "ok" and bool(eq) is False, {"tracks": "swapped"},
+                          False, repr(eq), mechanism="composition-neq-track-order")
             ctx.case(("comp", repr(hist)), nontrivial=len(hist) >= 2)
             if ci == 0:
                 ctx.sample({"history": hist[:8], "tracks": len(tracks)})
